@@ -21,6 +21,7 @@ import (
 //	APP               one application-data record
 //	EMPTYHS           empty handshake record
 //	APP0              empty application-data record
+//	[ ... ]           the handshake messages in between share one record
 //	RAW:<hex>         raw bytes on the transport
 //
 // receive side:
@@ -105,6 +106,10 @@ func (p *Peer) Run(o *Opts, ops []string) *Outcome {
 			err = p.SendAlert(2, byte(d))
 		case op == "APP":
 			err = p.SendApp([]byte("scripted application data"))
+		case op == "[":
+			p.BeginPack()
+		case op == "]":
+			err = p.EndPack()
 		case op == "APP0":
 			// an application-data record without payload (protected once the write cipher is on)
 			p.Sent = append(p.Sent, "APP0")
